@@ -12,6 +12,7 @@ CONSTANT OpSet = {"Get", "GetActive", "Put", "Upsert", "Remove", "Peek"}
 CONSTANT FreePut = FALSE
 CONSTANT MaxOps = 2
 CONSTANT MaxSteps = 3
+CONSTANT MaxUpd = 0
 CONSTANT Pool = 4
 CONSTANT SeqPrefix = 1
 SPECIFICATION Spec
@@ -21,6 +22,7 @@ INVARIANT ItemsExact
 INVARIANT BytesExactND
 INVARIANT EmptyIsZeroND
 INVARIANT Fresh
+INVARIANT FreshAfterInvalidate
 INVARIANT SingleFlight
 INVARIANT ListMapBij
 INVARIANT ItemsUnlocked
